@@ -6,6 +6,9 @@ import NeoModel.Proofs.CodecMultisig
 import NeoModel.Proofs.CodecMultisigPar
 import NeoModel.Proofs.CodecMerkle
 import NeoModel.Proofs.CodecBigInt
+import NeoModel.Proofs.CodecUint
+import NeoModel.Proofs.CodecBase58
+import NeoModel.Proofs.CodecScript
 namespace NeoModel.Codec
 variable {Sig Key : Type}
 
@@ -120,5 +123,72 @@ example (H : Bytes → Bytes) (a b c d e : Bytes) :
     calcMerkleRoot H [a, b, c, d, e]
       = H (H (H (a ++ b) ++ H (c ++ d)) ++ H (H (e ++ e) ++ H (e ++ e))) := by
   rw [(merkle_impls_eq_spec H _).1]; simp [merkleSpec, pairUp]
+
+/-! ## Uint160 / Uint256 (pkg/util) -/
+
+/-- C18 (160/256-bit integers): the hex strings (big- and little-endian) and the byte forms decode
+back to the value; `size` = 20 or 32 (any size). -/
+theorem uint_roundtrip (size : Nat) (u : Bytes) (h : u.length = size) :
+    uDecodeStringBE size (uStringBE u) = some u ∧ uDecodeStringLE size (uStringLE u) = some u ∧
+    uDecodeBytesBE size (uBytesBE u) = some u ∧ uDecodeBytesLE size (uBytesLE u) = some u :=
+  ⟨uDecodeStringBE_stringBE size u h, uDecodeStringLE_stringLE size u h,
+   (uDecodeBytes_roundtrip size u h).1, (uDecodeBytes_roundtrip size u h).2⟩
+
+/-- … and byte strings of any other length are rejected. -/
+theorem uint_wrong_length (size : Nat) (b : Bytes) (h : b.length ≠ size) :
+    uDecodeBytesBE size b = none ∧ uDecodeBytesLE size b = none := uDecode_wrong_length size b h
+
+example : uStringLE [0x01, 0x02, 0xab] = [97, 98, 48, 50, 48, 49] /- "ab0201" -/ ∧
+    uDecodeStringLE 3 [97, 98, 48, 50, 48, 49] = some [0x01, 0x02, 0xab] := by decide
+
+/-! ## Base58, Base58Check, address, WIF -/
+
+/-- C18 (Base58): decoding the encoding gives the bytes back, leading zero bytes included
+(any non-empty byte string; the library rejects the empty string). -/
+theorem base58_decode_encode (b : Bytes) (hne : b ≠ []) : b58Decode (b58Encode b) = some b :=
+  b58Decode_encode b hne
+
+example : b58Decode (b58Encode [0, 0, 1, 2, 3]) = some [0, 0, 1, 2, 3] := base58_decode_encode _ (by simp)
+-- the excluded case: the empty byte string encodes to the empty string, which `Decode` rejects
+example : b58Decode (b58Encode []) = none := by
+  simp [b58Encode, b58Decode, leadCount, ofDigitsBE, toDigitsBE_zero]
+
+/-- C18 (Base58Check): for a checksum function returning at least 4 bytes (double SHA-256 in the
+code) every non-empty payload decodes back (Base58Check always carries a version byte; the decoder
+demands 5 bytes). -/
+theorem base58check_roundtrip (H : Bytes → Bytes) (hH : ∀ x, 4 ≤ (H x).length) (b : Bytes) (hne : b ≠ []) :
+    checkDecode H (checkEncode H b) = some b := checkDecode_encode H hH b hne
+
+/-- C18 (addresses): a script hash (20 bytes) survives `Uint160ToString`/`StringToUint160`. -/
+theorem address_decode_encode (H : Bytes → Bytes) (hH : ∀ x, 4 ≤ (H x).length) (u : Bytes) (hu : u.length = 20) :
+    stringToUint160 H (uint160ToString H u) = some u := address_roundtrip H hH u hu
+
+/-- C18 (WIF): a 32-byte private key, any version byte and either compression flag survive
+`WIFEncode`/`WIFDecode`. -/
+theorem wif_decode_encode (H : Bytes → Bytes) (hH : ∀ x, 4 ≤ (H x).length) (key : Bytes) (hk : key.length = 32)
+    (version : UInt8) (compressed : Bool) :
+    ∃ s, wifEncode H key version compressed = some s ∧ wifDecode H s version = some (key, compressed) :=
+  wif_roundtrip H hH key hk version compressed
+
+-- non-vacuity of the hash hypothesis and of the key-length guard
+example : ∀ x : Bytes, 4 ≤ ((fun _ => List.replicate 32 (0 : UInt8)) x).length := by intro x; simp
+example (H : Bytes → Bytes) : wifEncode H [1, 2, 3] 0 true = none := by simp [wifEncode]
+
+/-! ## integer pushes (pkg/vm/emit, scparser) -/
+
+/-- C18 (emit): `emit.BigInt n` succeeds exactly for 256-bit integers, and the script it writes is a
+single instruction that pushes `n` (decoded through the VM's integer codec). -/
+theorem emit_bigint_pushes (n : Int) (hr : -(2:Int)^255 ≤ n ∧ n < (2:Int)^255) :
+    ∃ s, emitBigInt n = some s ∧ pushedInt s = some n := emitBigIntAux_pushes n true hr
+
+theorem emit_bigint_rejects (n : Int) (hr : ¬ (-(2:Int)^255 ≤ n ∧ n < (2:Int)^255)) : emitBigInt n = none :=
+  emitBigInt_none n hr
+
+/-- C18 (emit): `emit.Int i` pushes `i` for every int64. -/
+theorem emit_int_pushes (i : Int) (hr : -(2:Int)^63 ≤ i ∧ i < (2:Int)^63) :
+    ∃ s, emitInt i = some s ∧ pushedInt s = some i := emitInt_pushes i hr
+
+example : emitInt 16 = some [0x00, 0x10] ∧ emitInt 15 = some [0x1f] ∧ emitInt (-1) = some [0x0f]
+    ∧ emitInt 128 = some [0x01, 0x80, 0x00] ∧ pushedInt [0x01, 0x80, 0x00] = some 128 := by decide
 
 end NeoModel.Codec
